@@ -474,6 +474,26 @@ def _sort_job(chunk):
     return len(chunk), out
 
 
+def liveness_check(chk, work, name, consts, timeout=1500):
+    """FairSpec => Progress: under weak fairness of the picks, the completions and the finish, the run ends
+    (no state constraint: a constraint could hide a cycle without progress)."""
+    text, full = cfg_text(consts, invariants=[], properties=["Progress"], spec="FairSpec")
+    text = text.replace("CONSTRAINT Bound\n", "")
+    cfg = os.path.join(work, f"MC_{name}_live.cfg")
+    with open(cfg, "w") as fh:
+        fh.write(text)
+    try:
+        res = tlc.run_tlc("MC_Infretis", cfg, timeout=timeout, allow_violation=True, coverage=False)
+    except tlc.TLCError as exc:
+        chk.machinery(f"TLC (liveness) on {name}: {str(exc)[:1200]}")
+        return None
+    chk.add_tlc(res, dict(full, specification="FairSpec", property="Progress"))
+    if not res["ok"]:
+        chk.machinery(f"TLC refuted {res['violated'] or 'Progress'} under FairSpec on {name}: the Layer R model can stall")
+    print(f"  TLC {name} (liveness, FairSpec => Progress): {res['distinct']} states, {res['wall_s']} s, {'ok' if res['ok'] else 'refuted'}", flush=True)
+    return res
+
+
 def sort_states(sc, name, consts, timeout=1500):
     """All pre-sort states reachable in a small model of Infretis.tla, each run through the real sort_trajstate."""
     chk = sc.chk
